@@ -946,6 +946,10 @@ dispatch_read(dispatch_fd_t fd, size_t length, dispatch_queue_t queue,
 			});
 			_dispatch_release(queue);
 		});
+		// The convenience channel does not hold the fd_entry and a zero-length
+		// operation has no operation object to hold it: hold it here until
+		// the operation is done
+		_dispatch_fd_entry_retain(fd_entry);
 		dispatch_operation_t op =
 			_dispatch_operation_create(DOP_DIR_READ, channel, 0,
 					length, dispatch_data_empty,
@@ -958,6 +962,7 @@ dispatch_read(dispatch_fd_t fd, size_t length, dispatch_queue_t queue,
 				}
 				if (done) {
 					err = error;
+					_dispatch_fd_entry_release(fd_entry);
 				}
 			});
 		if (op) {
@@ -1017,6 +1022,8 @@ dispatch_write(dispatch_fd_t fd, dispatch_data_t data, dispatch_queue_t queue,
 			});
 			_dispatch_release(queue);
 		});
+		// See dispatch_read()
+		_dispatch_fd_entry_retain(fd_entry);
 		dispatch_operation_t op =
 			_dispatch_operation_create(DOP_DIR_WRITE, channel, 0,
 					dispatch_data_get_size(data), data,
@@ -1028,6 +1035,7 @@ dispatch_write(dispatch_fd_t fd, dispatch_data_t data, dispatch_queue_t queue,
 						deliver_data = d;
 					}
 					err = error;
+					_dispatch_fd_entry_release(fd_entry);
 				}
 			});
 		if (op) {
